@@ -1131,7 +1131,7 @@ def strat_generated(tier):
         pem=st.booleans(),
         src=st.sampled_from(["library", "openssl"]),
         struct=st.one_of(st.none(), st.tuples(st.integers(0, 40), st.integers(0, len(STRUCT_OPS) - 1))),
-        edits=st.lists(st.tuples(st.integers(0, 4000), st.integers(0, 255)), max_size=3),
+        edits=st.lists(st.tuples(st.integers(0, 4000), st.integers(0, 255)), min_size=1, max_size=3),
     ))
 
 
